@@ -10,21 +10,24 @@ from twisted.internet import reactor
 CLOCK = [1000.0]
 import types, time as _time
 # loggingproxy does `import time` and calls time.time(): give that module its own `time` namespace (virtual clock)
-lp.time = types.SimpleNamespace(time=lambda: CLOCK[0], strftime=_time.strftime)
+lp.time = types.SimpleNamespace(time=lambda: CLOCK[0], strftime=lambda fmt, *a: _time.strftime(fmt, *(a or (_time.gmtime(CLOCK[0]),))))
 
 
 class Proxy:
-    def __init__(self, password_required=False, t0_ticks=10_000_000):
+    def __init__(self, password_required=False, t0_ticks=10_000_000, fac=None, outdir=None):
+        """fac: serve another viewer with the SAME factory (the proxy accepts any number of viewers); outdir: `vnclog --forever DIR`,
+        one script file per connection (then self.rec stays empty: read the files)"""
         self.rec = []
         self.set_time(t0_ticks)
-        fac = lp.VNCLoggingServerFactory("h", 1)
-        fac.password_required = password_required
-        outer = self
+        if fac is None:
+            fac = lp.VNCLoggingServerFactory("h", 1)
+            fac.password_required = password_required
+            outer = self
 
-        class Out:
-            def write(self, s):
-                outer.rec.append(s)
-        fac.output = Out()
+            class Out:
+                def write(self, s):
+                    outer.rec.append(s)
+            fac.output = outdir if outdir is not None else Out()
         self.fac = fac
         captured = {}
         with mock.patch.object(reactor, "connectTCP", lambda h, p, f: captured.setdefault("f", f)):
